@@ -193,6 +193,8 @@ pub struct World {
     /// internal requests whose answer the handler consumed (session no longer awaits them)
     pub awaited_seen: BTreeSet<(usize, Vec<u8>)>,
     pub internal_answers_now: BTreeSet<(usize, Vec<u8>)>,
+    /// when each challenge (by its challenge data) was first seen in a snapshot
+    pub challenge_seen: BTreeMap<Vec<u8>, Instant>,
     /// attacker memory (challenge data of its own WHOAREYOUs, ...)
     pub scratch: Vec<(String, Vec<u8>)>,
     /// (node id, address) pairs that proved their identity to node 0 (harness-side fact)
@@ -279,6 +281,7 @@ impl World {
             log_mark: 0,
             awaited_seen: BTreeSet::new(),
             internal_answers_now: BTreeSet::new(),
+            challenge_seen: BTreeMap::new(),
             scratch: vec![],
             proved: BTreeSet::new(),
         }
@@ -482,6 +485,29 @@ impl World {
             }
         }
         best
+    }
+
+    /// Lets `total` pass, firing pending timers one deadline at a time (several timer queues
+    /// becoming due in one jump would be taken in random order by `select!`).
+    pub async fn advance_through(&mut self, total: Duration) {
+        let mut remaining = total;
+        for _ in 0..64 {
+            match self.earliest_deadline() {
+                Some(d) if d <= remaining => {
+                    clock::advance(d);
+                    remaining -= d;
+                    self.absorb().await;
+                    if d.is_zero() {
+                        clock::advance(Duration::from_millis(1));
+                        remaining = remaining.saturating_sub(Duration::from_millis(1));
+                        self.absorb().await;
+                    }
+                }
+                _ => break,
+            }
+        }
+        clock::advance(remaining);
+        self.absorb().await;
     }
 
     pub fn default_event(&self) -> Option<Ev> {
@@ -749,6 +775,13 @@ impl World {
         let post: Vec<Option<HandlerSnapshot>> = (0..self.nodes.len()).map(|i| self.snap(i)).collect();
         let restarted = if let Ev::Restart(n) = ev { Some(*n) } else { None };
 
+        /* bookkeeping: age of challenges */
+        for s in post.iter().flatten() {
+            for c in &s.challenges {
+                self.challenge_seen.entry(c.challenge_data.clone()).or_insert(now);
+            }
+        }
+
         /* bookkeeping: internal requests */
         for (i, s) in post.iter().enumerate() {
             if let Some(s) = s {
@@ -878,6 +911,19 @@ impl World {
                     let initiator_ok = self.delivered_now.iter().any(|(to, kind, src, _, nonce)| {
                         *to == i && *kind == 1 && src == peer && pre[i].as_ref().map(|p| p.active_requests.iter().any(|a| a.addr.socket_addr == *src && a.nonce == *nonce && !a.handshake_sent)).unwrap_or(false)
                     });
+                    // a challenge answered after its expiry must not establish anything
+                    if recipient_ok {
+                        for (to, kind, src, claimed, _) in self.delivered_now.clone() {
+                            if to == i && kind == 2 && src == *peer {
+                                if let Some(c) = pre[i].as_ref().and_then(|p| p.challenges.iter().find(|c| c.addr.socket_addr == src && Some(c.addr.node_id) == claimed)) {
+                                    let age = self.challenge_seen.get(&c.challenge_data).map(|t| now.saturating_duration_since(*t)).unwrap_or_default();
+                                    if age > REQUEST_TIMEOUT + Duration::from_millis(50) {
+                                        self.violate("C03", "answering after the challenge expired never creates or re-keys a session", "expired-challenge-accepted", format!("node {i}: handshake accepted for a challenge issued {:?} ago (lifetime {:?})", age, REQUEST_TIMEOUT));
+                                    }
+                                }
+                            }
+                        }
+                    }
                     if recipient_ok || initiator_ok {
                         self.count("session_keys_established");
                     } else {
